@@ -205,14 +205,30 @@ def run_driver(text):
     return p.returncode, p.stdout
 
 
-def correspond_shard(binp, profile, gen, tier, seed, shard, nshards, timeout):
+STOP = {"hang": False}
+
+
+def correspond_shard(binp, profile, gen, tier, seed, shard, nshards, timeout, stop_on_hang=False):
+    if stop_on_hang and STOP["hang"]:
+        # an earlier shard of this run hung: that is already a violation with a replay; in the quick tier the remaining
+        # shards are not started, so that a change which makes the library loop does not cost (shards x timeout)
+        return dict(profile=profile, gen=gen, shard=shard, crashed=None, transcript="", out="", rc=0, skipped=True)
     env = dict(os.environ)
     env["VERIF_TMP"] = tmpdir()
     try:
         p = subprocess.run([binp, "run", gen, tier, str(seed), str(shard), str(nshards)], stdout=subprocess.PIPE,
                            stderr=subprocess.PIPE, text=True, env=env, timeout=timeout)
-    except subprocess.TimeoutExpired:
-        return dict(profile=profile, gen=gen, shard=shard, crashed="timeout", transcript="", out="", rc=-1)
+    except subprocess.TimeoutExpired as e:
+        # keep what the shard printed before it hung: the answers it gave up to that point are still compared
+        STOP["hang"] = True
+        part = e.stdout or ""
+        if isinstance(part, bytes):
+            part = part.decode("utf-8", "replace")
+        part = part[:part.rfind("\n") + 1]
+        transcript = header(profile) + part
+        rc, out = run_driver(transcript) if part else (0, "")
+        return dict(profile=profile, gen=gen, shard=shard, crashed="timeout after %ds" % timeout, transcript=transcript,
+                    out=out, rc=0)
     transcript = header(profile) + p.stdout
     crashed = None
     if p.returncode != 0:
@@ -369,7 +385,7 @@ def check(prop, tier, seed):
                     for sd in seeds:
                         for sh_i in range(nshards):
                             jobs.append(ex.submit(correspond_shard, binp, pf, gen, scale, sd, sh_i, nshards,
-                                                  cfg.get("timeout", 1500 if (thorough or scale == "thorough") else 300)))
+                                                  cfg.get("timeout", 1500 if thorough else 300), not thorough))
             results = [j.result() for j in jobs]
         # corpus of minimised past failures: always run, in every profile
         cdir = os.path.join(ROOT, "corpus", prop)
@@ -384,6 +400,9 @@ def check(prop, tier, seed):
                 rc, out = run_driver(transcript)
                 results.append(dict(profile=pf, gen="corpus", shard=0, crashed=None if p.returncode == 0 else "harness exit %d" % p.returncode,
                                     transcript=transcript, out=out, rc=rc))
+        nskipped = sum(1 for r in results if r.get("skipped"))
+        if nskipped:
+            notes.append("%d shard(s) not started after another shard hung (quick tier)" % nskipped)
         for r in results:
             nes, s, rg, fl = parse_driver(r["out"])
             for k, v in s.items():
